@@ -189,7 +189,7 @@ func checkC11(p *Program, r *Report) {
 	// iterator isolation: every write inside a closure created on a read path
 	// targets memory allocated during the activation (any other target would be
 	// shared/global and is reported above).
-	r.Rule("C11.iter-isolation", "E1", "iterator closures write only objects allocated by the activation that created them", 2)
+	r.Rule("C11.iter-isolation", "E1", "iterator closures write only objects allocated by the activation that created them", 0)
 	var closures []*ssa.Function
 	for f := range a.reach {
 		if f.Parent() != nil && inSlim(f) {
@@ -198,6 +198,10 @@ func checkC11(p *Program, r *Report) {
 	}
 	sort.Slice(closures, func(i, j int) bool { return closures[i].String() < closures[j].String() })
 	for _, cf := range closures {
+		if a.syncFns[cf] {
+			r.OK("closure "+shortFn(cf), p.Pos(cf.Pos()), "runs under sync.Once: its writes are synchronised")
+			continue
+		}
 		nw, bad := 0, 0
 		instrsOf(cf, func(_ *ssa.BasicBlock, in ssa.Instruction) {
 			var tg oset
